@@ -81,7 +81,8 @@ def as_sbytes(c):
 R32 = ['eax', 'ecx', 'ebx', 'esp', 'ebp', 'edi']
 R16 = ['ax', 'bx', 'si']
 R8 = ['al', 'cl', 'ah', 'bh']
-MEMS = ['[ebx]', '[ebp]', '[esp]', '[ebx+{N}]', '[ebp+{N}]', '[ebx+esi*4+{N}]', '[esi*2+{N}]', '[{N}]', '[eax+ecx]', '[esp+{N}]', 'es:[edi+{N}]']
+MEMS = ['[ebx]', '[ebp]', '[esp]', '[ebx+{N}]', '[ebp+{N}]', '[ebx+esi*4+{N}]', '[esi*2+{N}]', '[esi*4+{N}]', '[{N}]', '[eax+ecx]', '[esp+{N}]', 'es:[edi+{N}]',
+        '[ebx-{N}]', '[ebx+ebx*2+{N}]', '[ebp+esi*8]']
 SIZES = ['BYTE PTR', 'WORD PTR', 'DWORD PTR', 'QWORD PTR', 'XMMWORD PTR', 'TBYTE PTR']
 
 
@@ -89,12 +90,12 @@ def operand_shapes(tier):
     """[(tag, text)] with {N} for a number"""
     out = [('r32', 'eax'), ('r32b', 'ebx'), ('r32c', 'ecx'), ('r16', 'bx'), ('r8', 'cl'), ('r8h', 'ah'), ('imm', '{N}'), ('sreg', 'es'), ('sreg2', 'fs'),
            ('mm', 'mm1'), ('xmm', 'xmm2'), ('st', 'st(1)'), ('st0', 'st'), ('cr', 'cr0'), ('dr', 'dr1')]
-    mems = MEMS if tier == 'thorough' else ['[ebx]', '[ebp+{N}]', '[ebx+esi*4+{N}]', '[{N}]', '[esp+{N}]']
-    for sz in SIZES:
+    mems = MEMS if tier == 'thorough' else ['[ebx]', '[ebp+{N}]', '[ebx+esi*4+{N}]', '[{N}]', '[esp+{N}]', '[esi*4+{N}]', '[ebx-{N}]']
+    for sz in (SIZES if tier == 'thorough' else ['BYTE PTR', 'WORD PTR', 'DWORD PTR', 'QWORD PTR']):
         for m in mems:
-            out.append(('m%s' % sz.split()[0].lower(), '%s %s' % (sz, m)))
-    for m in mems[:3]:
-        out.append(('mnosize', m))
+            out.append(('m%s:%s' % (sz.split()[0].lower(), m.replace('{N}', 'N')), '%s %s' % (sz, m)))
+    for m in mems:
+        out.append(('mnosize:%s' % m.replace('{N}', 'N'), m))
     return out
 
 
@@ -124,8 +125,12 @@ def accepted_lines(names, shapes, probe_values=(5, 0x1234)):
     """concrete pre-pass: (mnemonic, operand texts) combinations for which the assembler returns >= 1 candidate"""
     import itertools
     out = []
+    nonmem = [s for s in shapes if not s[0].startswith('m') or s[0] == 'mm']
+    mem = [s for s in shapes if s[0].startswith('m') and s[0] != 'mm']
+    partner = [s for s in nonmem if s[0] in ('r32', 'r16', 'r8', 'imm', 'xmm', 'mm', 'st', 'sreg', 'r32c')]
     for n in names:
-        combos = [()] + [(s,) for s in shapes] + list(itertools.product(shapes, repeat=2))
+        combos = [()] + [(s,) for s in shapes] + list(itertools.product(nonmem, repeat=2)) + \
+            list(itertools.product(mem, partner)) + list(itertools.product(partner, mem))
         for cmb in combos:
             tmpl, k = fill(n + ' ' + ', '.join(t for _, t in cmb))
             try:
